@@ -356,7 +356,17 @@ func treeLive(e *env) (string, string, error) {
 func (b *builder) scenario() *scenario {
 	s := b.r.Src
 	sc := &scenario{space: b.space, owner: b.owner}
-	kind := s.Weighted("scenario", []int{2, 2, 3, 4, 3, 4, 3, 3})
+	// the 500+ change batch costs ten times a normal run: rare in the quick tier
+	wBig := 1
+	scale := 3
+	if b.r.Tier == "thorough" {
+		scale = 1
+	}
+	kind := s.Weighted("scenario", []int{2 * scale, 2 * scale, 3 * scale, 4 * scale, 3 * scale, 4 * scale, 3 * scale, 3 * scale, wBig})
+	big := kind == 8
+	if big {
+		kind = 5
+	}
 	switch kind {
 	case 0:
 		sc.name = "space-create"
@@ -384,8 +394,13 @@ func (b *builder) scenario() *scenario {
 	case 2:
 		sc.name = "tree-create-deferred+first-add"
 		// author: the same tree with changes, in its own database
-		n := s.Range("n", 1, 5)
+		n := s.Range("n", 0, 5)
 		_, _, changes, root := b.baseSpace("author", n, s.Choose("snap", n+2))
+		if n == 0 {
+			// a tree received with nothing but its root
+			sc.name = "tree-create-deferred-root-only"
+			changes = []*treechangeproto.RawTreeChangeWithId{root}
+		}
 		dir, _, _, _ := b.baseSpace("base", -1, 0)
 		sc.baseDir = dir
 		sc.treeId = root.Id
@@ -428,8 +443,15 @@ func (b *builder) scenario() *scenario {
 		sc.name = "remote-add"
 		// the victim holds a prefix of the author's changes
 		n := s.Range("n", 2, 8)
+		if big {
+			sc.name = "remote-add-big-batch"
+			n = 505 + s.Choose("nbig", 60)
+		}
 		adir, treeId, changes, _ := b.baseSpace("author", n, s.Choose("snap", n+3))
 		keep := s.Choose("keep", n) // victim holds the first `keep` changes
+		if big {
+			keep = s.Choose("keep", 3)
+		}
 		vdir, _, _, _ := b.baseSpaceWithRoot("base", treeIdRoot(adir, b, treeId), changes[:keep])
 		sc.baseDir, sc.treeId = vdir, treeId
 		payload := objecttree.RawChangesPayload{NewHeads: []string{changes[n-1].Id}, RawChanges: changes[keep:]}
@@ -616,13 +638,28 @@ func runC10(r *core.Run) {
 		r.Fail("inconsistent-after-state", sc.name, "%s: after-state: %v %v", sc.name, err, probs)
 	}
 	if after == before {
-		r.Fail("harness-noop", sc.name, "%s changes nothing", sc.name)
+		r.Fail("success-but-nothing-durable", sc.name, "%s reported success but the durable state is unchanged", sc.name)
 	}
 	calls := append([]string{}, plan.Calls...)
 	nb := len(calls)
 	r.SetCfg("boundaries", nb)
 	r.Event("scenario:"+sc.name, "crosses %d boundaries: %s", nb, strings.Join(calls, " "))
+	// operations crossing very many boundaries (a 500+ change batch): the legs are sampled (first 3, last 3
+	// and 5 seeded ones) instead of enumerated
+	sel := map[int]bool{}
+	if nb > 60 {
+		for k := 1; k <= 3; k++ {
+			sel[k], sel[nb+1-k] = true, true
+		}
+		for i := 0; i < 5; i++ {
+			sel[1+s.Choose("leg", nb)] = true
+		}
+		r.Probe("legs-sampled")
+	}
 	for k := 1; k <= nb; k++ {
+		if len(sel) > 0 && !sel[k] {
+			continue
+		}
 		r.Event("legs@"+calls[k-1], "boundary %d/%d: crash images before/after + injected error", k, nb)
 		// crash leg: images before and after call k
 		plan := &faultstore.Plan{Reads: reads, CrashAt: k}
